@@ -6,6 +6,7 @@ pub mod c03;
 pub mod c05;
 pub mod c12;
 pub mod c19;
+pub mod c20;
 pub mod model;
 pub mod common;
 
@@ -18,6 +19,7 @@ pub fn build(id: &str, tier: &str) -> Option<Check> {
         "C05" => c05::build(quick),
         "C12" => c12::build(quick),
         "C19" => c19::build(quick),
+        "C20" => c20::build(quick),
         _ => return None,
     })
 }
